@@ -175,33 +175,38 @@ def leanchecker(modules, timeout=3600):
 # driver
 
 
-_DRIVER_SNAPSHOT = None
+_DRIVER_SNAPSHOT = {}
 
 
-def driver_snapshot():
-    """a private copy of the driver binary (taken under the build lock): other checks may relink
-    the shared one at any time"""
-    global _DRIVER_SNAPSHOT
-    if _DRIVER_SNAPSHOT and os.path.exists(_DRIVER_SNAPSHOT):
-        return _DRIVER_SNAPSHOT
+def driver_target(prop):
+    return "drv_%s" % prop
+
+
+def driver_snapshot(prop):
+    """a private copy of the property's driver binary (taken under the build lock): other checks
+    may relink the shared one at any time. Every property has its own executable (`drv_Cxx`), so
+    a driver file of another property that does not compile cannot break this check."""
+    if prop in _DRIVER_SNAPSHOT and os.path.exists(_DRIVER_SNAPSHOT[prop]):
+        return _DRIVER_SNAPSHOT[prop]
+    exe = os.path.join(LEAN, ".lake", "build", "bin", driver_target(prop))
     with _Lock():
-        if not os.path.exists(DRIVER):
-            raise InfraError("driver binary missing: " + DRIVER)
+        if not os.path.exists(exe):
+            raise InfraError("driver binary missing: " + exe)
         d = tempfile.mkdtemp(prefix="nixdriver-")
-        dst = os.path.join(d, "nixdriver")
-        shutil.copy2(DRIVER, dst)
+        dst = os.path.join(d, driver_target(prop))
+        shutil.copy2(exe, dst)
     import atexit
     atexit.register(shutil.rmtree, d, True)
-    _DRIVER_SNAPSHOT = dst
+    _DRIVER_SNAPSHOT[prop] = dst
     return dst
 
 
 def run_driver(prop, cases, timeout=1800):
     """pipe JSON-able cases to `nixdriver <prop>`; returns the parsed output per case"""
-    drv = driver_snapshot()
+    drv = driver_snapshot(prop)
     data = "".join(json.dumps(c, ensure_ascii=True) + "\n" for c in cases)
     try:
-        p = subprocess.run([drv, prop], input=data, stdout=subprocess.PIPE, stderr=subprocess.PIPE,
+        p = subprocess.run([drv], input=data, stdout=subprocess.PIPE, stderr=subprocess.PIPE,
                            text=True, timeout=timeout)
     except subprocess.TimeoutExpired:
         raise InfraError("model driver timed out")
